@@ -33,6 +33,7 @@ MODULE_GLOBAL_WRITERS = {"MODULE_CLASSES": {"src/python/rv/modules/meta.py:Modul
 
 
 def run(repo: Repo, rep, tier: str):
+    rep.count("files_in_scope", repo.consult_all())
     census = mutable_census(repo, rep, "C17")
     escape_rule(repo, rep, "C17", census)
     fresh_state_rule(repo, rep, "C17", census)
